@@ -249,7 +249,17 @@ C17Same(a, b) == Tri(~Cut(a, b), a.res.ok = b.res.ok /\ a.res.err = b.res.err /\
 \* entry points: values (parse family) or bytes (build family) agree; positions are entry-point specific
 C17Entry(a, b) == Tri(~Cut(a, b), a.res.ok = b.res.ok /\ (a.res.ok => ValEq(a.res.v, b.res.v)) /\ (~a.res.ok => a.res.err = b.res.err))
 \* parse_stream at another starting offset: equal values, unless the construct observes absolute positions
-C17Offset(n, a, b) == Tri(~Cut(a, b) /\ ~AnyNode(n, {"Tell", "RawCopy", "Pointer", "Seek", "OffsettedEnd"}),
+\* members whose value is an absolute position, or is found at one: Tell, RawCopy, Seek (it returns the position it reaches), a Pointer
+\* to an offset counted from the start of the stream (a target counted from the end of a region does not depend on where the data starts)
+RECURSIVE PosDep(_, _)
+PosDep(n, inreg) ==
+    LET m == Core(n)  ks == Kids(n)  r2 == inreg \/ m.k \in {"FixedSized", "Prefixed"} IN
+    \/ m.k \in {"Tell", "RawCopy", "Seek"}
+    \* (outside a region a target counted from the end can lie before the place the data starts at)
+    \/ (m.k = "Pointer" /\ ~(inreg /\ m.off.x = "const" /\ m.off.v.t = "int" /\ m.off.v.neg))
+    \/ \E i \in 1..Len(ks) : PosDep(ks[i], r2)
+PosDependent(n) == PosDep(n, FALSE)
+C17Offset(n, a, b) == Tri(~Cut(a, b) /\ ~PosDependent(n),
                           a.res.ok = b.res.ok /\ a.res.err = b.res.err /\ (a.res.ok => ValEq(a.res.v, b.res.v) /\ a.res.p - a.start = b.res.p - b.start))
 \* construct objects are not mutated by use: structural digests of the object graphs of the pool before and after a call
 C17Frozen(x) == Tri(TRUE, x.before = x.after)
